@@ -9,7 +9,7 @@ and every command is a transaction command over user keys of `K` whose lock keys
 structure TxSetup (K : List Key) (b : Mem) (ops : List Op) : Prop where
   within : b.Within K
   fits   : K.length ≤ b.cap
-  fitsOv : K.length ≤ 1000
+  fitsOv : K.length ≤ TxSt.overlaySize
   free   : ∀ k, reserved k = true → b.view k = none
   ops    : ∀ op ∈ ops, OpOk K op
 
